@@ -81,3 +81,8 @@ claim("C16", "E1", "exploration",
       "bounded-exhaustive enumeration of load histories on one loader object with a differential oracle (fresh loader) and snapshot immutability",
       "All sequences up to length 3 (4 thorough) over 13 YAML and 13 JSON documents that drop keys, shrink/reorder lists, remove options or fail to load are fed to one loader; each published value must deep-equal a fresh loader's, earlier published values must stay equal to their snapshots, failed loads must publish nothing, and the full server must behave as the last good document says.",
       "documents outside the 13 shapes are not explored; the fsnotify watcher is represented by calling Unmarshal on the same object", "3/C16")
+claim("C09", "E3", "model_checking",
+      "exhaustive enumeration of packet interleavings of session scripts (one connection, and two connections sharing a session id) with a differential oracle",
+      "Every order-preserving interleaving of every ordered pair of 12 session scripts (and of sets of triples) is executed on the real reference server, multiplexed on one connection and spread over two connections that reuse the same session id; "
+      "each session's transcript of raw reply headers and decoded bodies must equal the transcript of the same script alone on a fresh server. Goroutine-level concurrency of connections is explored by the C15 scheduler harnesses.",
+      "scripts are fixed packet lists; more than three simultaneous sessions are not explored", "3/C09")
